@@ -184,7 +184,16 @@ def work(item):
             if len(inv[t]) > 60:
                 inv[t] = inv[t][::max(1, len(inv[t]) // 60)]
         sv = seedmod.seeds(name, 2 if quick else 10)
-        for s, v in sv:
+        # further accepted presentations: the written seed with one character removed (short sections, dropped
+        # leading zeros or separators) where validate() still accepts it
+        more = []
+        for s, v in sv[:2]:
+            for i in range(len(s)):
+                t = s[:i] + s[i + 1:]
+                o = outcome(m.validate, t)
+                if o[0] == 'ok' and t not in more and len(more) < 8:
+                    more.append(t)
+        for s, v in list(sv) + [(t, t) for t in more]:
             for base in dict.fromkeys((s, v)):
                 ref = outcome(m.validate, base)
                 refv = ref[1] if ref[0] == 'ok' else None
